@@ -5,6 +5,7 @@
 package fwsim
 
 import (
+	"fmt"
 	"strings"
 
 	"verifsim/kit"
@@ -432,6 +433,29 @@ func (Engine) Generate(prop string, r *kit.Rand, tier string) *kit.Scenario[Conf
 	}
 	var cached []Op // C07: Data ops issued as part of a fetch (probably cached)
 	for i := 0; i < nops; i++ {
+		if prop == "C08" && len(routes) > 0 && r.Chance(0.0015) {
+			// a burst: a few hundred Interests for distinct names within a few milliseconds, all due to expire at
+			// about the same time (a crawler, a sync storm) - the reaper has hundreds of entries to take in one tick
+			rt := kit.Pick(r, routes)
+			face := c.Faces[0].ID
+			for _, f := range c.Faces {
+				if f.ID != rt.Face {
+					face = f.ID
+				}
+			}
+			life := kit.Pick(r, []int{20, 50, 100, 300})
+			for k, nk := 0, r.Range(120, 320); k < nk; k++ {
+				in := g.interest()
+				in.Hop, in.Hint, in.NextHop, in.CBP, in.MBF, in.Token = nil, nil, 0, false, false, ""
+				in.Name = strings.TrimSuffix(rt.Prefix, "/") + fmt.Sprintf("/burst%d", k)
+				in.Face, in.LifeMs = face, life
+				g.nonces++
+				in.Nonce = g.nonces
+				sc.Ops = append(sc.Ops, in)
+			}
+			sc.Ops = append(sc.Ops, Op{Op: "advance", Ms: life + kit.Pick(r, []int{150, 250, 400})})
+			continue
+		}
 		if prop == "C02" && len(routes) > 0 && len(c.Faces) >= 3 && r.Chance(0.04) {
 			// the life cycle of one dead-nonce record: a nonce is recorded (a retransmission supersedes it, its entry
 			// expires), leaves the list after one lifetime, is used again and forwarded, recorded again when that
